@@ -438,6 +438,12 @@ def run(chk, ctx):
                         acc_bad.append('%s.%s depends on run-time module '
                                        'state: %s' % (ci_.short, mname,
                                                       T.show(a_)[:60]))
+    from .c16 import data_model_effects
+    dm_, dm_runs_ = data_model_effects(ctx)
+    nacc += dm_runs_
+    for where_, e_ in dm_:
+        acc_bad.append('%s: %s %s at %s' % (
+            where_, e_.kind, str(e_.detail)[:40], e_.site))
     seen_acc = sorted(set(x.split(': ', 1)[1] for x in acc_bad))
     chk.ob('C14.W', 'catalogue accessors', not acc_bad,
            '%d abstract runs of attributes() / amqp_type(): no module-level '
